@@ -418,6 +418,57 @@ def checkOps (ct : ClassTable) (e : OpExpr) (t : V) (obs : Obs) : Bool :=
   | .error x => obs == .ctor x.cls
   | .ok s => checkC10 ct s t obs
 
+/-! ### programs over spec objects (operands that exist — and have been evaluated — already) -/
+
+/-- what one executed statement shows: nothing for a `bind` that succeeded, the constructor /
+    operator error for one that raised (the program ends there), the observation of a `glom` call -/
+inductive StepObs where
+  | bound
+  | obs (o : Obs)
+  deriving Repr, DecidableEq
+
+/-- the model of a program run: the heap of spec objects grows with every `bind`; an
+    evaluation reads the object and leaves the heap as it is -/
+def runProg (env : Env) : List Step → List Spec → List StepObs
+  | [], _ => []
+  | .bind e :: rest, objs =>
+    (match bindObj env.boolOps objs e with
+     | .error x => [.obs (.ctor x.cls)]
+     | .ok s =>
+       match ctorErr s with
+       | some x => [.obs (.ctor x.cls)]
+       | none => .bound :: runProg env rest (objs ++ [s]))
+  | .eval i t :: rest, objs =>
+    .obs (observe env (eval env (objAt objs i) t)) :: runProg env rest objs
+
+/-- the error `x_n = e` must raise, if any: `e` with the earlier definitions inlined, read as the
+    nested constructor expression -/
+def bindErr (e : OpExpr) : Option String :=
+  match build expectedBoolOps false e with
+  | .error x => some x.cls
+  | .ok s => (ctorErr s).map (·.cls)
+
+/-- The property on a program: whatever was evaluated before, and whichever other trees an
+    object is part of, every `glom(t, Match(x_i))` decides `t` like the constructor-built tree
+    that the definition of `x_i` denotes (earlier definitions inlined); a `bind` raises exactly
+    when that constructor expression does.  `defs`: the inlined definitions so far. -/
+def checkProg (ct : ClassTable) : List Step → List OpExpr → List StepObs → Bool
+  | [], _, os => os.isEmpty
+  | .bind e :: rest, defs, o :: os =>
+    let e' := e.subst (defAt defs)
+    (match bindErr e', o with
+     | some c, .obs (.ctor c') => c == c' && os.isEmpty
+     | none, .bound => checkProg ct rest (defs ++ [e']) os
+     | _, _ => false)
+  | .eval i t :: rest, defs, .obs o :: os => checkOps ct (defAt defs i) t o && checkProg ct rest defs os
+  | _, _, _ => false
+
+/-- every name a statement mentions is bound by an earlier statement -/
+def progWF : List Step → Nat → Bool
+  | [], _ => true
+  | .bind e :: rest, n => e.uses.all (· < n) && progWF rest (n + 1)
+  | .eval i _ :: rest, n => decide (i < n) && progWF rest n
+
 
 def classOK (env : Env) (o : Origin) (c : String) : Bool :=
   env.exc.isSub c "GlomError" &&
